@@ -857,6 +857,11 @@ class SVG:
         # https://github.com/googlefonts/nanoemoji/issues/275
         _del_attrs(self.svg_root, *_INHERITABLE_ATTRIB)
 
+        # links were followed above (use, gradient templates); on the elements a
+        # picosvg is made of a leftover one means nothing
+        for el in self.xpath("//svg:svg | //svg:defs | //svg:g | //svg:path | //svg:stop"):
+            _del_attrs(el, _xlink_href_attr_name())
+
         self._remove_orphaned_gradients()
 
         # After simplification only gradient defs should be referenced
